@@ -1,10 +1,14 @@
 pub mod c19;
+pub mod smoke;
+pub mod tower;
 
 use crate::runner::Ctx;
 
 pub fn dispatch(ctx: &Ctx) -> i32 {
     match ctx.property.as_str() {
         "C19" => c19::run(ctx),
+        "SMOKE" => smoke::run(ctx),
+        "C01" | "C02" | "C04" | "C06" | "C07" | "C08" | "C09" | "C11H" => tower::run(ctx),
         other => {
             eprintln!("no check for {other}");
             3
